@@ -702,7 +702,7 @@ func (x *Exec) wf(st *State, t types.Type, term string, mode string) {
 func (x *Exec) addObl(st *State, kind, name, goal, pos, text string) *Obl {
 	// loop clauses of a contract that belongs to other properties only: they are proved by those
 	// properties' checks; here (a call-site sweep for another property) they are only assumed
-	if (kind == "inv-entry" || kind == "inv-preserved" || kind == "decreases") && x.loopOwner != nil && x.prop != "" && !x.wantObl(x.loopOwner.Props) {
+	if (kind == "inv-entry" || kind == "inv-preserved" || kind == "decreases" || kind == "loop-exit") && x.loopOwner != nil && x.prop != "" && !x.wantObl(x.loopOwner.Props) {
 		return &Obl{Name: name, Kind: kind}
 	}
 	if c := x.oblNames[name]; c > 0 {
@@ -885,8 +885,13 @@ func (x *Exec) execFunc(fr *Frame, st *State) (*State, []string) {
 				}
 				if isExit {
 					env := x.invEnv(fr, cur)
+
 					for _, l := range spec.ExitLets {
 						v := x.evalSpec(env, l.Expr)
+						if l.Ghost {
+							cur.ghost[l.Name] = x.vc.define("ghost_"+l.Name, x.ghostSort(l.Name), v.term)
+							continue
+						}
 						v.term = x.vc.define("exitlet_"+l.Name, x.vc.sortOf(v.typ), v.term)
 						fr.lets[l.Name] = v
 					}
@@ -1176,6 +1181,7 @@ func pureHeader(h *ssa.BasicBlock) bool {
 }
 
 func (x *Exec) addEdge(fr *Frame, from, to *ssa.BasicBlock, st *State, in map[*ssa.BasicBlock][]edgeIn, loopIdx map[*ssa.BasicBlock]int) {
+	x.exitAsserts(fr, from, to, st, loopIdx)
 	if x.peelBody != nil {
 		if x.peelBody[to] {
 			return // the peeled pass only follows edges that leave the loop
@@ -1188,6 +1194,38 @@ func (x *Exec) addEdge(fr *Frame, from, to *ssa.BasicBlock, st *State, in map[*s
 		return
 	}
 	in[to] = append(in[to], edgeIn{from, st})
+}
+
+// exitAsserts: the edge leaves a loop with exit-assert clauses towards the block that follows the
+// loop (exhausted range / false condition, or a break) - not a return from inside the loop: the
+// clauses are obligations in the state carried by that edge.
+func (x *Exec) exitAsserts(fr *Frame, from, to *ssa.BasicBlock, st *State, loopIdx map[*ssa.BasicBlock]int) {
+	if fr.depth != 0 || fr.contract == nil || from == nil || !x.wantObl(fr.contract.Props) {
+		return
+	}
+	for h, idx := range loopIdx {
+		spec := fr.contract.Loops[idx]
+		if spec == nil || len(spec.ExitAsserts) == 0 {
+			continue
+		}
+		body := loopBlocks(h)
+		if !body[from] || body[to] {
+			continue
+		}
+		follows := false
+		for _, s := range h.Succs {
+			if s == to {
+				follows = true
+			}
+		}
+		if !follows {
+			continue
+		}
+		env := x.invEnv(fr, st)
+		for _, c := range spec.ExitAsserts {
+			x.addObl(st, "loop-exit", fmt.Sprintf("%s/loop-exit:loop%d/%s", shortFn(x.top), idx, c.Label), x.evalBool(env, c.Expr), x.p.pos(blockPos(to)), c.Text)
+		}
+	}
 }
 
 var debugExec = os.Getenv("GOVC_DEBUG") != ""
